@@ -1,5 +1,6 @@
 """C14 — xfab.tools and xfab.laue agree on everything except the documented factor 2*pi."""
 import math, inspect
+import json
 import numpy as np
 import gens
 
@@ -134,13 +135,79 @@ def run_case(rng, i, covered):
     return out
 
 
-def hkl_cases(rng, covered, n):
-    from xfab import tools as T, laue as L, sg
+def _settings():
     import json, os
     meta = json.load(open(os.path.join(os.path.dirname(__file__), '..', '..', 'lean', 'XfabVerif', 'Gen', 'tables_meta.json')))
+    return meta['settings']
+
+
+def sysabs_sweep(rng, covered, per):
+    """tools.sysabs / sysabs_unique vs laue's on EVERY setting (its own syscond, crystal system and cell choice), `per`
+    random hkl each plus the 26 axis/diagonal representatives where the special conditions live"""
+    from xfab import tools as T, laue as L, sg
     out = []
-    sets = rng.sample(meta['settings'], n)
+    fixed = [[h, k, l] for h in (-1, 0, 1, 2) for k in (-1, 0, 1, 2) for l in (0, 1, 3)]
+    for s in _settings():
+        cc = s['cell_choice'] if s['cell_choice'] == 'rhombohedral' else 'standard'
+        spg = sg.sg(sgno=s['no'], cell_choice=cc)
+        covered.update(['sysabs', 'sysabs_unique'])
+        for h in fixed + [[rng.randint(-7, 7) for _ in range(3)] for _ in range(per)]:
+            a, b = T.sysabs(h, spg.syscond, spg.crystal_system, spg.cell_choice), L.sysabs(h, spg.syscond, spg.crystal_system, spg.cell_choice)
+            a2, b2 = T.sysabs_unique(h, spg.syscond), L.sysabs_unique(h, spg.syscond)
+            if a != b or a2 != b2:
+                out.append({'fn': 'sysabs' if a != b else 'sysabs_unique', 'input': {'hkl': h, 'sgno': s['no'], 'cell_choice': cc},
+                            'observed': {'tools': [int(a), int(a2)], 'laue': [int(b), int(b2)]}, 'expected': 'equal', 'known_id': None})
+                break
+    return out
+
+
+def replay_sysabs(inp):
+    from xfab import tools as T, laue as L, sg
+    spg = sg.sg(sgno=inp['sgno'], cell_choice=inp.get('cell_choice', 'standard'))
+    h = inp['hkl']
+    a = [T.sysabs(h, spg.syscond, spg.crystal_system, spg.cell_choice), T.sysabs_unique(h, spg.syscond)]
+    b = [L.sysabs(h, spg.syscond, spg.crystal_system, spg.cell_choice), L.sysabs_unique(h, spg.syscond)]
+    return a, b
+
+
+def hkl_one(inp, covered=None):
+    """tools vs laue reflection generators on one (setting, cell, shell); returns violations"""
+    from xfab import tools as T, laue as L, sg
+    covered = covered if covered is not None else set()
+    out = []
+    c, smin, smax, cc = inp['cell'], inp['sintlmin'], inp['sintlmax'], inp['cell_choice']
+    spg = sg.sg(sgno=inp['sgno'], cell_choice=cc)
+    for fn in ('genhkl_unique', 'genhkl_all'):
+        np.random.seed(7)
+        a = getattr(T, fn)(c, smin, smax, sgno=inp['sgno'], cell_choice=cc, output_stl=True)
+        np.random.seed(7)
+        b = getattr(L, fn)(c, smin, smax, sgno=inp['sgno'], cell_choice=cc, output_stl=True)
+        covered.add(fn)
+        if not same(a, b):
+            out.append({'fn': fn, 'input': inp, 'observed': {'tools_rows': len(a), 'laue_rows': len(b)}, 'expected': 'identical lists', 'known_id': None})
+    a = T.genhkl_base(c, spg.syscond, smin, smax, spg.crystal_system, spg.Laue, spg.cell_choice, True)
+    b = L.genhkl_base(c, spg.syscond, smin, smax, spg.crystal_system, spg.Laue, spg.cell_choice, True)
+    covered.add('genhkl_base')
+    if not same(a, b):
+        out.append({'fn': 'genhkl_base', 'input': inp, 'observed': {'tools_rows': len(a), 'laue_rows': len(b)}, 'expected': 'identical lists', 'known_id': None})
+    return out
+
+
+def hkl_cases(rng, covered, n):
+    from xfab import tools as T, laue as L, sg
+    out = []
+    sets = rng.sample(_settings(), n)
     for s in sets:
+        cc = s['cell_choice'] if s['cell_choice'] == 'rhombohedral' else 'standard'
+        c = gens.conforming_cell(rng, s['cs'], cc)
+        # shells whose bounds coincide bit-for-bit with the sin(theta)/lambda of a generated reflection: `>` vs `>=`
+        np.random.seed(7)
+        rows = T.genhkl_unique(c, 0.0, 0.3, sgno=s['no'], cell_choice=cc, output_stl=True)
+        if len(rows) >= 3:
+            lo_row = rows[rng.randrange(0, len(rows) // 2)]
+            hi_row = rows[rng.randrange(len(rows) // 2, len(rows))]
+            for smin_b, smax_b in ((float(lo_row[3]), 0.3), (0.0, float(hi_row[3])), (float(lo_row[3]), float(hi_row[3]))):
+                out += hkl_one({'sgno': s['no'], 'cell_choice': cc, 'cell': c, 'sintlmin': smin_b, 'sintlmax': smax_b, 'boundary': True}, covered)
         cc = s['cell_choice'] if s['cell_choice'] == 'rhombohedral' else 'standard'
         c = gens.conforming_cell(rng, s['cs'], cc)
         smax = rng.uniform(0.15, 0.3)
@@ -187,12 +254,19 @@ def oracle(ctx, hints=()):
     covered = set()
     viol, ev, nontriv = [], 0, 0
     try:
+        import random
         for i in range(ctx.n(60, 5000, boost=1500)):
             ev += 1
-            viol += run_case(ctx.rng, i, covered)
+            cs = ctx.rng.getrandbits(48)
+            res = run_case(random.Random(cs), i, covered)
+            for v in res:
+                v['case'] = [cs, i]
+            viol += res
             nontriv += 1
             if len([v for v in viol if v['known_id'] is None]) > 20:
                 break
+        viol += sysabs_sweep(ctx.rng, covered, ctx.n(25, 400, boost=150))
+        ev += 237
         viol += hkl_cases(ctx.rng, covered, ctx.n(8, 120, boost=40))
         ev += ctx.n(8, 120, boost=40)
     finally:
@@ -258,6 +332,25 @@ def check_known(finding):
 
 
 def replay(payload):
+    import random
     v = payload.get('violation')
-    print('replay C14: stored violation:', v)
+    if not v:
+        print('replay: broken obligation, no input stored:', payload.get('broken'))
+        return 1
+    fn = v['fn']
+    if fn in ('sysabs', 'sysabs_unique'):
+        a, b = replay_sysabs(v['input'])
+        bad = a != b
+        print('replay C14 %s %s: tools=%s laue=%s -> %s' % (fn, v['input'], a, b, 'VIOLATION' if bad else 'holds'))
+        return 1 if bad else 0
+    if fn in ('genhkl_unique', 'genhkl_all', 'genhkl_base') and 'sintlmin' in (v.get('input') or {}):
+        res = [x for x in hkl_one(v['input']) if x['fn'] == fn]
+        print('replay C14 %s %s -> %s' % (fn, v['input'], 'VIOLATION ' + str(res[0]['observed']) if res else 'holds'))
+        return 1 if res else 0
+    if v.get('case'):
+        cs, i = v['case']
+        res = [x for x in run_case(random.Random(cs), i, set()) if x['fn'] == fn and not x.get('known_id')]
+        print('replay C14 %s case %s -> %s' % (fn, v['case'], ('VIOLATION ' + json.dumps(res[0]['observed'])[:300]) if res else 'holds'))
+        return 1 if res else 0
+    print('replay C14: stored violation (no executable input):', v)
     return 1
